@@ -83,6 +83,12 @@ RECURSIVE LexLeq(_, _, _)
 LexLeq(p, q, c) == IF c > Dim THEN TRUE
                    ELSE IF p[c] # q[c] THEN p[c] < q[c] ELSE LexLeq(p, q, c + 1)
 
+(* the rows of a set in lexicographic order *)
+RECURSIVE SortedSeq(_)
+SortedSeq(S) == IF S = {} THEN <<>>
+                ELSE LET m == CHOOSE p \in S : \A q \in S : LexLeq(p, q, 1)
+                     IN  <<m>> \o SortedSeq(S \ {m})
+
 Distinct(X) == Cardinality({ X[i] : i \in 1..Len(X) })
 
 (* squared distance between two rows *)
@@ -192,8 +198,7 @@ Init ==
     /\ k \in Ks
     /\ maxIter \in MaxIters
     /\ IF FullLayer
-       THEN data \in { s \in [1..Cardinality(Point) -> Point] :
-                          \A i \in 1..(Cardinality(Point) - 1) : s[i] # s[i + 1] /\ LexLeq(s[i], s[i + 1], 1) }
+       THEN data = SortedSeq(Point)
        ELSE \E n \in 2..MaxN : data \in [1..n -> Point]
     /\ \A i \in 1..(Len(data) - 1) : LexLeq(data[i], data[i + 1], 1)   \* rows in canonical order
     /\ Distinct(data) >= k                       \* the domain of the property
